@@ -61,23 +61,39 @@ func main() {
 		UploadURL:     os.Getenv("VERIF_C16_URL"),
 		TelemetryDir:  os.Getenv("VERIF_C16_TDIR"),
 	}
-	res := telemetry.Start(cfg)
+	if os.Getenv("VERIF_C16_ENTRY") == "maybe" {
+		// the documented alternative for programs that cannot call Start first
+		telemetry.MaybeChild(cfg)
+		logLine(fmt.Sprintf("maybe-ret %d", pid))
+	}
+	calls, _ := strconv.Atoi(os.Getenv("VERIF_C16_CALLS"))
+	if calls < 1 {
+		calls = 1
+	}
+	var res *telemetry.StartResult
+	for i := 0; i < calls; i++ {
+		res = telemetry.Start(cfg)
+	}
 	logLine(fmt.Sprintf("ret %d", pid))
 	if asGo {
 		os.Exit(1) // "go mod download" fails: there is no network
 	}
-	if os.Getenv("VERIF_C16_HOLD") == "1" && lineage == "" {
+	if want, _ := strconv.Atoi(os.Getenv("VERIF_C16_HOLD")); want > 0 && lineage == "" {
 		// A crash-reporting sidecar exits as soon as its application does.
 		// Stay alive until the uploader half of the sidecar has run the go
-		// command (or for a short while), so that its descendants are seen.
+		// command (or for a short while), so that its descendants are seen
+		// ($VERIF_C16_HOLD of them are expected).
 		me := "\"/" + strconv.Itoa(pid) + "/"
 		for i := 0; i < 1500; i++ {
 			data, _ := os.ReadFile(os.Getenv("VERIF_C16_LOG"))
-			if strings.Contains(string(data), me) {
+			if strings.Count(string(data), me) >= want {
 				break
 			}
 			time.Sleep(2 * time.Millisecond)
 		}
+	}
+	if os.Getenv("VERIF_C16_PANIC") == "1" && lineage == "" {
+		panic("the application crashes")
 	}
 	if os.Getenv("VERIF_C16_WAIT") == "1" {
 		res.Wait()
